@@ -53,9 +53,9 @@ RULE = ("generated source trees (depth <= 4, fan-out <= 4, names with spaces, Un
 
 
 def suites(tier: str, seed: int) -> List[Suite]:
-    site, alone = SC.site_suite(), SC.alone_suite()
+    site, alone, hist = SC.site_suite(), SC.alone_suite(), SC.history_suite()
     if tier == "replay":
-        return [site, alone]
+        return [site, alone, hist]
     if tier == "quick":
         plan = [("valid", "small", 6), ("valid", "medium", 12), ("valid", "deep", 4), ("errors", "small", 10),
                 ("errors", "medium", 10), ("f13", "small", 2), ("f15", "small", 2),
@@ -70,7 +70,10 @@ def suites(tier: str, seed: int) -> List[Suite]:
         na, ne = 1500, 400
     site.cases = SC.gen_site_cases("C16", seed, plan)
     alone.cases = SC.gen_alone_cases(seed, na, ne)
-    return [site, alone]
+    # regenerating INTO THE SAME OUTPUT DIRECTORY after a linked asset got other bytes of the same length (old
+    # timestamps): the copy in the output must be the new bytes
+    hist.cases = SC.gen_asset_history_cases(seed, 8 if tier == "quick" else 150)
+    return [site, alone, hist]
 
 
 def replay(inp: Any) -> Case:
